@@ -253,7 +253,7 @@ def run(ctx):
         elif i < 4 * full:
             want |= {"mut"} if i % 2 else {"trunc"}
         ocases += open_variants(ctx, t, want, T)
-    ocases += random_open_cases(ctx, 800 if T else 150)
+    ocases += random_open_cases(ctx, 500 if T else 150)
     allcases = scases + ocases
     results = {}
     for prof in ("dev", "nodebug"):
